@@ -3644,3 +3644,91 @@ pub proof fn lemma_free_links_all<T>(o: Seq<Node<T>>, x: int)
     }
 }
 
+// ---- C03: re-inserting a node where it already is changes nothing ------------------------------
+pub proof fn lemma_reinsert_noop<T>(o: Seq<Node<T>>, m: Seq<Node<T>>, n: Seq<Node<T>>, w: Ranks, x: NodeId)
+    // @props C03
+    requires
+        links_ok(o),
+        ranked(o, w),
+        0 <= x.idx() < o.len(),
+        o[x.idx()].stamp == x.stamp,
+        !x.stamp.removed(),
+        detach_post(o, m, x.idx()),
+        insert_post(m, n, x, o[x.idx()].parent, o[x.idx()].previous_sibling, o[x.idx()].next_sibling),
+    ensures
+        n =~= o,
+{
+    reveal(node_ok);
+    let xi = x.idx();
+    assert(node_ok(o, xi));
+    lemma_neighbors_distinct(o, w, xi);
+    if o[xi].previous_sibling is Some {
+        let a = o[xi].previous_sibling->0.idx();
+        assert(node_ok(o, a));
+        lemma_id_eq(o[a].next_sibling->0, x);
+    }
+    if o[xi].next_sibling is Some {
+        let b = o[xi].next_sibling->0.idx();
+        assert(node_ok(o, b));
+        lemma_id_eq(o[b].previous_sibling->0, x);
+    }
+    if o[xi].parent is Some {
+        let p = o[xi].parent->0.idx();
+        assert(node_ok(o, p));
+        if o[xi].previous_sibling is None {
+            lemma_id_eq(o[p].first_child->0, x);
+        }
+        if o[xi].next_sibling is None {
+            lemma_id_eq(o[p].last_child->0, x);
+        }
+    }
+    assert forall|i: int| 0 <= i < o.len() implies n[i] == o[i] by {
+        assert(m[i].stamp == o[i].stamp);
+        assert(n[i].stamp == m[i].stamp);
+    }
+}
+
+// ---- C06: ids are never reissued, is_removed stays true (arithmetic of the generation stamps) ----
+/// the id (slot, g) has been handed out at some earlier time, given the slot's current stamp
+pub open spec fn was_issued(st: NodeStamp, g: i16) -> bool {
+    0 <= g && g as int <= st.hw()
+}
+
+/// `NodeId::is_removed` for an id with generation g whose slot currently has stamp st
+pub open spec fn reads_removed(st: NodeStamp, g: i16) -> bool {
+    st.0 != g
+}
+
+pub proof fn lemma_c06_transitions(st: NodeStamp, g: i16)
+    // @props C06
+    requires
+        was_issued(st, g),
+    ensures
+        // removing the current occupant (the contract of as_removed / free_node)
+        !st.removed() && st.0 > i16::MIN ==> {
+            let st2 = NodeStamp((-st.0 - 1) as i16);
+            was_issued(st2, g) && reads_removed(st2, g)
+        },
+        // recycling the slot (the contract of reuse / new_node): a strictly newer generation than any issued one
+        st.can_reuse() ==> {
+            let st3 = NodeStamp((-st.0) as i16);
+            was_issued(st3, g) && st3.0 > g && (reads_removed(st, g) ==> reads_removed(st3, g))
+        },
+        // an id that reads as removed stays so under both transitions
+        reads_removed(st, g) && !st.removed() ==> reads_removed(NodeStamp((-st.0 - 1) as i16), g),
+{
+}
+
+pub proof fn lemma_sibling_facts<T>(s: Seq<Node<T>>, i: int)
+    // @props C03 C01
+    requires
+        links_ok(s),
+        0 <= i < s.len(),
+    ensures
+        s[i].previous_sibling is Some ==> s[s[i].previous_sibling->0.idx()].parent == s[i].parent && s[i].previous_sibling->0.idx() != i,
+        s[i].next_sibling is Some ==> s[s[i].next_sibling->0.idx()].parent == s[i].parent && s[i].next_sibling->0.idx() != i,
+{
+    reveal(node_ok);
+    assert(node_ok(s, i));
+}
+
